@@ -219,11 +219,15 @@ func (i *interpreter) signOf(f bigF) int {
 	if f.nat != nil {
 		return f.nat.Sign()
 	}
-	zero := mkReal(new(big.Rat))
-	if i.branch(mkEq(f.sv, zero)) {
+	so := signOperand(f)
+	var zero *expr = mkInt64(0)
+	if so.sort == sReal {
+		zero = mkReal(new(big.Rat))
+	}
+	if i.branch(mkEq(so, zero)) {
 		return 0
 	}
-	if i.branch(mkLt(f.sv, zero)) {
+	if i.branch(mkLt(so, zero)) {
 		return -1
 	}
 	return 1
@@ -411,15 +415,54 @@ func (i *interpreter) bigCmp(x, y bigF) value {
 	if y.isInf() {
 		return -y.nat.Sign()
 	}
-	xr, yr := x.real(), y.real()
+	xr, yr := cmpOperands(x, y)
 	e := mkIte(mkLt(xr, yr), mkInt64(-1), mkIte(mkGt(xr, yr), mkInt64(1), mkInt64(0)))
-	e.lo, e.hi, e.bdone = big.NewInt(-1), big.NewInt(1), true
+	if e.op != "i" {
+		e.lo, e.hi, e.bdone = big.NewInt(-1), big.NewInt(1), true
+	}
 	return mkIntVal(types.Int, e)
+}
+
+// cmpOperands returns terms whose order is the order of x and y: aligned integer numerators when both values
+// are fixed-point (pure integer arithmetic for the solver), the exact reals otherwise.
+func cmpOperands(x, y bigF) (*expr, *expr) {
+	xn, xs, _, ok1 := x.fixed()
+	yn, ys, _, ok2 := y.fixed()
+	if ok1 && ok2 {
+		s := xs
+		if ys > s {
+			s = ys
+		}
+		return mkMul(mkInt(pow2(s-xs)), xn), mkMul(mkInt(pow2(s-ys)), yn)
+	}
+	return x.real(), y.real()
+}
+
+// signTerm returns a term with the sign of x (integer numerator when fixed-point).
+func signOperand(x bigF) *expr {
+	if n, _, _, ok := x.fixed(); ok {
+		return n
+	}
+	return x.real()
 }
 
 func accValue(k int) value { return int8(k) } // big.Accuracy is int8: Below=-1 Exact=0 Above=+1
 
 // truncInt returns the term for trunc(x) and the accuracy term for a finite symbolic x.
+func truncTermsF(x bigF) (tr *expr, acc *expr) {
+	if n, sc, _, ok := x.fixed(); ok {
+		if sc == 0 {
+			return n, mkInt64(0)
+		}
+		d := mkInt(pow2(sc))
+		zero := mkInt64(0)
+		tr = mkIte(mkGe(n, zero), mkDiv(n, d), mkNeg(mkDiv(mkNeg(n), d)))
+		acc = mkIte(mkEq(mkMod(n, d), zero), mkInt64(0), mkIte(mkGt(n, zero), mkInt64(-1), mkInt64(1)))
+		return
+	}
+	return truncTerms(x.sv)
+}
+
 func truncTerms(sv *expr) (tr *expr, acc *expr) {
 	zero := mkReal(new(big.Rat))
 	fl := mkToInt(sv)
@@ -535,9 +578,15 @@ func init() {
 			if z.nat != nil {
 				return z.nat.Sign()
 			}
-			zero := mkReal(new(big.Rat))
-			e := mkIte(mkLt(z.sv, zero), mkInt64(-1), mkIte(mkGt(z.sv, zero), mkInt64(1), mkInt64(0)))
-			e.lo, e.hi, e.bdone = big.NewInt(-1), big.NewInt(1), true
+			so := signOperand(z)
+			var zero *expr = mkInt64(0)
+			if so.sort == sReal {
+				zero = mkReal(new(big.Rat))
+			}
+			e := mkIte(mkLt(so, zero), mkInt64(-1), mkIte(mkGt(so, zero), mkInt64(1), mkInt64(0)))
+			if e.op != "i" {
+				e.lo, e.hi, e.bdone = big.NewInt(-1), big.NewInt(1), true
+			}
 			return mkIntVal(types.Int, e)
 		},
 		"(*math/big.Float).Signbit": func(fr *frame, args []value) value {
@@ -547,6 +596,10 @@ func init() {
 				return z.nat.Signbit()
 			}
 			i.ex.noteAssumption("negative zero is outside the symbolic number model (Signbit = value < 0)")
+			so := signOperand(z)
+			if so.sort == sInt {
+				return mkBoolVal(mkLt(so, mkInt64(0)))
+			}
 			return mkBoolVal(mkLt(z.sv, mkReal(new(big.Rat))))
 		},
 		"(*math/big.Float).IsInf": func(fr *frame, args []value) value {
@@ -755,7 +808,7 @@ func init() {
 				v, acc := x.nat.Int64()
 				return tuple{v, accValue(int(acc))}
 			}
-			tr, acc := truncTerms(x.sv)
+			tr, acc := truncTermsF(x)
 			lo, hi := kindRange(types.Int64)
 			if i.branch(mkGt(tr, mkInt(hi))) {
 				return tuple{int64(math.MaxInt64), accValue(-1)}
@@ -773,10 +826,14 @@ func init() {
 				v, acc := x.nat.Uint64()
 				return tuple{v, accValue(int(acc))}
 			}
-			tr, acc := truncTerms(x.sv)
+			tr, acc := truncTermsF(x)
 			lo, hi := kindRange(types.Uint64)
-			zero := mkReal(new(big.Rat))
-			if i.branch(mkLt(x.sv, zero)) {
+			so := signOperand(x)
+			var zero *expr = mkInt64(0)
+			if so.sort == sReal {
+				zero = mkReal(new(big.Rat))
+			}
+			if i.branch(mkLt(so, zero)) {
 				// negative: 0, Above (for -0 < x: big says Above when x<0)
 				return tuple{uint64(0), accValue(1)}
 			}
@@ -807,7 +864,7 @@ func init() {
 				*zp = bigI{nat: v}
 				return tuple{zp, accValue(int(acc))}
 			}
-			tr, acc := truncTerms(x.sv)
+			tr, acc := truncTermsF(x)
 			if x.num != nil {
 				b := x.bits - x.scale
 				if b < 1 {
